@@ -243,3 +243,13 @@ Proof.
   refine (evaluate_zero cf _ _ _ a b u Hc _ Hu). cbn [p_w1 p_w2].
   destruct Hw as [Hw|Hw]; rewrite Hw; ring.
 Qed.
+
+(* ---------- samples without coordinates ---------- *)
+Lemma vreduce_embed cf l : vreduce (vcfg cf) (map (vembed cf) l) = map (vembed cf) (filter (vusable cf) l).
+Proof. unfold vreduce. rewrite filter_map_comm. reflexivity. Qed.
+Lemma compute_dir_coords cf fs d l :
+  compute_dir (vcfg cf) fs d (map (vembed cf) (filter (vusable cf) l)) = compute_dir (vcfg cf) fs d (map (vembed cf) l).
+Proof. rewrite <- vreduce_embed. apply compute_dir_reduce. Qed.
+Lemma reached1_coords cf d l p :
+  In p (reached1 (vcfg cf) d (map (vembed cf) l)) -> s_sel (fst p) = true /\ s_sel (snd p) = true.
+Proof. intro H. apply (outer1_active (vcfg cf) _ _ _ p H). Qed.
